@@ -57,7 +57,7 @@ func c18Oracle(t, stored []byte, header string) string {
 
 func runC18(ctx *Ctx) error {
 	r, res := ctx.Rng, ctx.Res
-	res.Rule = "cases: Latin-1 texts (mixed LF/CRLF/lone CR/no final newline, empty lines, line lengths 0..300000, non-ASCII characters incl. at byte offsets 994..1002 of a line) passed as UTF-8 to Message.SetBody / StringToBody; stored body and Body header vs model set_body; oracle: the property's statement on the stored bytes. Non-trivial: text with a line > 998 bytes or a non-ASCII character; distinct by text."
+	res.Rule = "cases: Latin-1 texts (mixed LF/CRLF/lone CR/no final newline, empty lines, line lengths 0..300000, non-ASCII characters incl. at byte offsets 994..1002 of a line) passed as UTF-8 to Message.SetBody / StringToBody; stored body and Body header vs model set_body; oracle: the property's statement on the stored bytes; and the result does not depend on what the message held before (a body set earlier; a body parsed from the wire that is not in normal form and is set again as the text Body() returns). Non-trivial: text with a line > 998 bytes or a non-ASCII character; distinct by text."
 	var texts [][]byte
 	alpha := []byte("abcdefghijklmnopqrstuvwxyz ABC0123456789.,\xe6\xf8\xe5\xc5\xfc\xdf\xff\x80\xa0\t")
 	line := func(n int) []byte {
@@ -147,6 +147,43 @@ func runC18(ctx *Ctx) error {
 				c = c[:400] + fmt.Sprintf("...(%d bytes)", len(t))
 			}
 			res.Fail(Failure{Kind: "oracle", Site: "SetBody-" + why, Case: map[string]interface{}{"text_hex": c, "index": i}, Impl: fmt.Sprintf("stored %d bytes, header %s", len(stored), header)})
+		}
+		// the result must not depend on what the message held before: a body set earlier (of the
+		// same stored length, or any other), or a body parsed from the wire that is not in normal
+		// form and is set again as the text Body() returns
+		if i%4 == 0 {
+			m2 := fbb.NewMessage(fbb.Private, "LA1B")
+			prev := bytes.Repeat([]byte("z"), len(stored))
+			if len(prev) >= 2 {
+				copy(prev[len(prev)-2:], "\r\n")
+			}
+			m2.SetBody(string(prev))
+			m2.SetBody(s)
+			if b2, _ := m2.Body(); b2 != back || m2.Header.Get("Body") != header {
+				res.Fail(Failure{Kind: "oracle", Site: "SetBody-depends-on-previous-body", Case: map[string]interface{}{"text_hex": shortHex(t), "previous": "a body of the same stored length"}})
+			}
+			res.Count("after-previous-body")
+		}
+		if i%4 == 1 && len(t) > 0 && len(t) < 100000 {
+			m0 := fbb.NewMessage(fbb.Private, "LA1B")
+			m0.AddTo("LA5NTA")
+			m0.SetSubject("wire")
+			m0.SetBody("PLACEHOLDER")
+			if raw, err := m0.Bytes(); err == nil {
+				wire := bytes.Replace(raw, []byte("Body: 13\r\n"), []byte(fmt.Sprintf("Body: %d\r\n", len(t))), 1)
+				wire = bytes.Replace(wire, []byte("\r\n\r\nPLACEHOLDER\r\n"), append(append([]byte("\r\n\r\n"), t...), '\r', '\n'), 1)
+				m3 := new(fbb.Message)
+				if err := m3.ReadFrom(bytes.NewReader(wire)); err == nil {
+					cur, _ := m3.Body()
+					want, werr := fbb.StringToBody(cur, fbb.DefaultCharset)
+					if err := m3.SetBody(cur); err == nil && werr == nil {
+						if got, _ := m3.Body(); got != latin1ToUTF8(want) {
+							res.Fail(Failure{Kind: "oracle", Site: "SetBody-depends-on-previous-body", Case: map[string]interface{}{"text_hex": shortHex(t), "previous": "the same text as parsed from the wire (not in normal form)"}})
+						}
+					}
+					res.Count("after-wire-body")
+				}
+			}
 		}
 		lines = append(lines, "setbody "+tx(t))
 		impl = append(impl, tx(stored)+" "+ts(header))
